@@ -185,6 +185,17 @@ impl Env {
                 format!("{}/runs", build)
             }
         });
+        // remove what earlier, interrupted runs left behind (directories named after a pid that is gone)
+        if let Ok(rd) = fs::read_dir(&scratch_root) {
+            for e in rd.flatten() {
+                let name = e.file_name().to_string_lossy().to_string();
+                if let Some(pid) = name.strip_prefix("deltasim.").or_else(|| name.strip_prefix("deltasim-sched.")) {
+                    if pid.chars().all(|c| c.is_ascii_digit()) && !Path::new(&format!("/proc/{}", pid)).exists() {
+                        let _ = fs::remove_dir_all(e.path());
+                    }
+                }
+            }
+        }
         let scratch = PathBuf::from(format!("{}/deltasim.{}", scratch_root, std::process::id()));
         Env {
             delta_bin: PathBuf::from(std::env::var("DELTA_BIN").unwrap_or_else(|_| format!("{}/target-e1/release/delta", build))),
